@@ -14,6 +14,13 @@ Definition sc_internal : N := Z.to_N internal_CloseInternalErr.
 Definition status_bytes (c : N) : list N :=
   if c =? 0 then [] else [(N.shiftr c 8) mod 2 ^ 8; (N.shiftr ((N.shiftl c 8) mod 2 ^ 16) 8) mod 2 ^ 8].
 
+(* the reply-status table of emitClose: `switch realCode {...}` on a two-byte status *)
+Definition close_class (real : N) : N :=
+  if (real =? 1004) || (real =? 1005) || (real =? 1006) || (real =? 1015) then sc_protocol
+  else if (real <? 1000) || (5000 <=? real) || ((1016 <=? real) && (real <? 3000)) then sc_protocol
+  else if real <? 1016 then sc_normal
+  else real.
+
 Section Close.
 Variable utf8_valid : list N -> bool.
 
@@ -26,11 +33,7 @@ Definition emit_close (utf8_on : bool) (body : list N) : N * list N * N :=
   | [b] => (b, [], sc_protocol)
   | b0 :: b1 :: reason =>
       let real := b0 * 2 ^ 8 + b1 in       (* binary.BigEndian.Uint16 *)
-      let resp :=
-        if (real =? 1004) || (real =? 1005) || (real =? 1006) || (real =? 1015) then sc_protocol
-        else if (real <? 1000) || (5000 <=? real) || ((1016 <=? real) && (real <? 3000)) then sc_protocol
-        else if real <? 1016 then sc_normal
-        else real in
+      let resp := close_class real in
       let resp := if check_encoding8 utf8_on reason then resp else sc_unsupported_data in
       (real, reason, resp)
   end.
